@@ -101,7 +101,7 @@ Proof.
     + now apply write_live.
     + intros Tn l0 o0 Hl0 Ho k0 l1 Hk. unfold upd_heap in Ho. destruct (Nat.eqb l0 l) eqn:E.
       * inversion Ho; subst. rewrite lookup_setk in Hk. destruct (Nat.eqb k0 k); [discriminate|].
-        exact (Hclosed Tn l o Fx H0 k0 l1 Hk).
+        exact (Hclosed eq_refl l o Fx H0 k0 l1 Hk).
       * eapply Hclosed; eauto.
   - (* IUpdate *) apply andb_true_iff in Hc as [Tx Hc]. destruct (t x) eqn:Etx; [|discriminate].
     pose proof (HF x l Etx H) as Fx.
@@ -121,7 +121,7 @@ Proof.
     + now apply write_live.
     + intros Tn l0 o0 Hl0 Ho k0 l1 Hk. unfold upd_heap in Ho. destruct (Nat.eqb l0 l) eqn:E.
       * inversion Ho; subst. rewrite lookup_delk in Hk. destruct (Nat.eqb k0 k); [discriminate|].
-        exact (Hclosed Tn l o Fx H0 k0 l1 Hk).
+        exact (Hclosed eq_refl l o Fx H0 k0 l1 Hk).
       * eapply Hclosed; eauto.
 Qed.
 
